@@ -105,7 +105,7 @@ class G:
 
     def switch(self, d, inloop, ncases=None):
         r = self.r
-        vals = [0, 1, 2, 3, 4, 5, 6]; r.shuffle(vals); cases = []; hasdef = False
+        vals = list(range(0, 12)); r.shuffle(vals); cases = []; hasdef = False
         for _ in range(ncases or r.randint(1, 4)):
             body = self.block(d + 1, inloop, True) if r.random() < 0.6 else []
             if not hasdef and r.random() < 0.25: hasdef = True; cases.append((None, body))
